@@ -35,6 +35,7 @@ pub trait Show: Entry {
 /// entries whose root segment joined with the relative segment is not the entry's path, compared as OS paths (not as the
 /// lossy text the items are printed in)
 static JOIN_FAILS: AtomicUsize = AtomicUsize::new(0);
+static ROOT_NONE: AtomicUsize = AtomicUsize::new(0);
 
 fn show_common(e: &dyn Entry) -> String {
     let (root, rel) = e.root_relative_paths();
@@ -79,11 +80,17 @@ where
     for item in it {
         match item {
             Ok(e) => out.push(e.show()),
-            Err(e) => out.push(format!(
-                "err:{}:{}",
-                e.path().map(hexp).unwrap_or_else(|| "-".into()),
-                e.depth()
-            )),
+            Err(e) => {
+                // an error for the ROOT of the walk that names no path at all (the empty path is a path: `Some("")`)
+                if e.depth() == 0 && e.path().is_none() {
+                    ROOT_NONE.fetch_add(1, Ordering::SeqCst);
+                }
+                out.push(format!(
+                    "err:{}:{}",
+                    e.path().map(hexp).unwrap_or_else(|| "-".into()),
+                    e.depth()
+                ))
+            },
         }
     }
 }
@@ -515,6 +522,10 @@ pub fn walk_cmd(args: &[&str]) -> String {
     let jf = JOIN_FAILS.swap(0, Ordering::SeqCst);
     if jf > 0 {
         lower.push_str(&format!(" joinfail={}", jf));
+    }
+    let rn = ROOT_NONE.swap(0, Ordering::SeqCst);
+    if rn > 0 {
+        lower.push_str(&format!(" rootnone={}", rn));
     }
     match result {
         Err(e) => format!("{} root={} rec={}{}", e, hex(&root_str), join(&rec), lower),
